@@ -501,7 +501,9 @@ def register(GROUPS, c2g, incs, REPO, HERE, STRUCTS, Group):
         orig = sl.SliceT
         sl.SliceT = make_slice_class(consts)
         try:
-            return sl.emit_block(body, "slice_" + name, outputs, name, want_params=want, **kw)
+            # `want` documents the free variables expected today; the theorems C20_gen_* apply the definitions by position, so a
+            # renamed local variable is harmless and a NEW free variable changes the arity (the proofs fail)
+            return sl.emit_block(body, "slice_" + name, outputs, name, **kw)
         finally:
             sl.SliceT = orig
 
